@@ -1825,6 +1825,58 @@ func exhaustive(maxLen int) {
 	}
 }
 
+// small-scope exhaustive push histories: every pair of pushes drawn from a small universe
+// of (descriptor, reader) variants over two payloads, on every modelled store kind
+func exhaustiveHistories(full bool) {
+	payloads := [][]byte{[]byte("ab"), {}}
+	var variants []Push
+	for _, data := range payloads {
+		other := append(append([]byte(nil), data...), 'z')
+		good := Push{MT: mediaTypes[0], DG: digestFor("sha256", data), SZ: int64(len(data))}
+		one := func(d []byte) []Ev {
+			if len(d) == 0 {
+				return nil
+			}
+			return []Ev{{Kind: 'D', Data: d}}
+		}
+		mk := func(f func(p *Push)) {
+			p := good
+			p.Script = one(data)
+			f(&p)
+			variants = append(variants, p)
+		}
+		mk(func(p *Push) {})                                                                                         // good
+		mk(func(p *Push) { p.Script = []Ev{{Kind: 'Z'}}; p.Script = append(p.Script, one(data)...); p.Comb = true }) // 0-byte read, data+EOF
+		mk(func(p *Push) { p.Script = one(other) })                                                                  // trailing byte
+		mk(func(p *Push) { p.Script = nil })                                                                         // empty reader
+		mk(func(p *Push) { p.Script = append(one(data), Ev{Kind: 'F'}) })                                            // error after the data
+		mk(func(p *Push) { p.Script = append([]Ev{{Kind: 'F'}}, one(data)...) })                                     // error first
+		mk(func(p *Push) { p.DG = digestFor("sha256", other) })                                                      // wrong digest
+		mk(func(p *Push) { p.SZ++ })                                                                                 // size + 1
+		mk(func(p *Push) { p.SZ = -1 })                                                                              // negative
+		mk(func(p *Push) { p.DG = "sha1:da39a3ee5e6b4b0d3255bfef95601890afd80709" })                                 // unsupported
+		mk(func(p *Push) { p.DG = digestFor("sha512", data) })                                                       // other algorithm, good
+	}
+	kinds := []string{"mem", "oci", "file", "lim2", "olim1", "fileD", "fileI", "fileF", "ocistore", "memstore"}
+	names := []string{"", "a", "./a", "b"}
+	for ki, kind := range kinds {
+		for i, p1 := range variants {
+			for j, p2 := range variants {
+				if !full && (i+j+ki)%7 != 0 { // quick tier: a seventh of the pairs
+					continue
+				}
+				a, c := p1, p2
+				if strings.HasPrefix(kind, "file") {
+					a.Name = names[(i+j)%len(names)]
+					c.Name = names[(i*3+j+1)%len(names)]
+				}
+				run.Count("gen:exhaustive-history")
+				runCase(&Case{Op: "ST", Kind: kind, Pushes: []Push{a, c}})
+			}
+		}
+	}
+}
+
 func main() {
 	run = common.Start("C05")
 	defer run.Finish()
@@ -1840,6 +1892,7 @@ func main() {
 	}
 	r := run.Rand
 	exhaustive(run.Scale(4, 8))
+	exhaustiveHistories(run.Thorough())
 	n := run.Scale(8000, 200000)
 	for i := 0; i < n; i++ {
 		switch k := r.Intn(20); {
@@ -1900,7 +1953,7 @@ func main() {
 		"store:mem", "store:lim", "store:oci", "store:olim", "store:file", "store:ocistore", "store:memstore",
 		"store:fileD", "store:fileC", "store:fileI", "store:fileF",
 		"input:good", "input:good+trailing", "input:bad-digest", "input:digest-mismatch", "input:negative-size", "input:short-or-failed",
-		"cw:fail:fault", "cw:short:fault", "judged:cc-membership", "gen:alias-name", "gen:huge-size", "gen:blob>1MiB"} {
+		"cw:fail:fault", "cw:short:fault", "judged:cc-membership", "gen:alias-name", "gen:huge-size", "gen:blob>1MiB", "gen:exhaustive-history"} {
 		if run.Dist[k] == 0 {
 			missing = append(missing, k)
 		}
